@@ -68,7 +68,11 @@ class Bucket:
             self.reset()
             return
         # the source code of the file changed, we need to reload
-        checksum = pickle.load(f)
+        try:
+            checksum = pickle.load(f)
+        except (EOFError, ValueError, TypeError, pickle.UnpicklingError):
+            self.reset()
+            return
         if self.checksum != checksum:
             self.reset()
             return
